@@ -1068,7 +1068,7 @@ def c03_keyword_unicode():
     """U+212A KELVIN SIGN / U+0130 / U+017F in keywords: not a documented spelling -> must not act as the keyword"""
     out = []
     for k in KEYWORDS:
-        for a, b in (("k", "K"), ("i", "İ"), ("s", "ſ"), ("K", "K")):
+        for a, b in (("k", "\u212a"), ("i", "\u0130"), ("s", "\u017f"), ("K", "\u212a")):
             for base in (k, k.upper()):
                 if a not in base:
                     continue
@@ -1302,7 +1302,7 @@ def c04_cases(n_bytes, n_soup, n_mut, n_regex):
     # token soup
     TOK = ["$", "@", ".", "*", "**", "[", "]", "(", ")", "{", "}", "?", "!", "==", "!=", "<>", "<", "<=", ">", ">=", "&&", "||", "+", "-", "/", "%", ",", " ", " ", "\n", "/**/", "/*", "*/",
            "1", "0", "1.5", ".5", "5.", "1e5", "1e400", "0x1F", "0b1", "0o7", "1_0", "9223372036854775807", "9223372036854775808", "99999999999999999999", "\"a\"", "\"", "\"\\u0041\"", "\"\\ud800\"", "a", "_a",
-           "$a", "$\"a\"", "\\x41", "\\u{41}", "\\", "é", "😀", "K", "\x00", "\xff".encode("latin-1")] + KEYWORDS + [k.upper() for k in KEYWORDS[:8]]
+           "$a", "$\"a\"", "\\x41", "\\u{41}", "\\", "é", "😀", "\u212a", "\x00", "\xff".encode("latin-1")] + KEYWORDS + [k.upper() for k in KEYWORDS[:8]]
     soup = []
     for _ in range(n_soup):
         n = rnd.choice([1, 2, 3, 3, 4, 5, 6, 8, 10, 14])
